@@ -185,7 +185,7 @@ def ta_correspondence(chk, traces, shards=16, scripts=None, guards=False):
     # The order of allocations inside one Synchronize / configuration update is reconstructed from the instrumented
     # call trace. Where that reconstruction makes a capacity test of the model fail, the history is replayed once more
     # with shared-only grants first: a sequence the implementation completed in SOME order is reproduced by that one.
-    retry = [n for n, it in bad if 'ErrNoCapacity' in it]
+    retry = [n for n, it in bad if 'ErrNoCapacity' in it or 'ErrGuard 13' in it]
     if retry:
         p2 = os.path.join(chk.work, 'cases_ta_retry.v')
         ta_corr.case_file(p2, [(n, traces[n]) for n in retry], cfgs, False, permissive=True)
@@ -232,7 +232,19 @@ def pins_correspondence(chk, traces, scripts, shards=8):
         if rc != 0 or body is None:
             chk.corr_broken('TA_Pins/' + os.path.basename(p), 'coqc failed:\n' + out[-1500:])
             continue
-        for n, it in zip(grp, split_top(body.strip()[1:-1])):
+        its = list(zip(grp, split_top(body.strip()[1:-1])))
+        failing = [n for n, it in its if it.strip() != 'None']
+        if failing:
+            # same second opinion as for TA_Model: the other reinstatement / allocation order
+            p2 = p[:-2] + '_retry.v'
+            ta_corr.pins_case_file(p2, [(n, traces[n]) for n in failing], cfgs, permissive=True)
+            (rc2, out2), = coq_eval_many([p2], timeout=600)
+            body2 = parse_coq_print(out2, 'M')
+            if rc2 == 0 and body2 is not None:
+                ok2 = {n for n, it in zip(failing, split_top(body2.strip()[1:-1])) if it.strip() == 'None'}
+                stats['order_retries_ok'] += len(ok2)
+                its = [(n, it) for n, it in its if n not in ok2]
+        for n, it in its:
             if it.strip() != 'None':
                 sc = byname.get(n)
                 chk.corr_broken('TA_Pins:' + n, 'history %s: the cpuset a container is left with differs from the model\'s pin at (segment, event group) %s' % (n, ' '.join(it.split())),
